@@ -546,3 +546,138 @@ def check_history(net, output):
         if seen.get((ci, text), 0) < len(ws):
             probs.append("value %r written on channel %d was never received" % (text[:60], ci))
     return probs
+
+
+# ------------------------------------------------------------------------------------------
+# task captures (C08)
+
+class KClosure(Kind):
+    """a lambda that captured an array: calling it pushes to its array and returns the new length"""
+    name, ty = "closure", "int -> int"
+
+    def mk(self, a, b):
+        return None  # built by the generator (needs a helper binding)
+
+
+def gen_capture(r, nest=True):
+    """one program: several values of different kinds are captured by a task (optionally a task
+    inside the task); both sides mutate their values in phases ordered by handshakes and report
+    renderings. Under deep-copy-at-spawn semantics every rendering is determined. -> dict(src,
+    expect, kinds, nmut)"""
+    kinds = r.sample([k for k in KINDS if k.name != "void"], r.range(2, 4))
+    lines = [DECLS]
+    vals = []      # [name, kind, model value, let/var] on the main side
+    for i, k in enumerate(kinds):
+        src, pv = k.mk(r.range(1, 9), r.range(0, 9))
+        name = "v%d" % i
+        mut = "var" if (not k.heap or r.chance(30)) else "let"
+        lines.append("%s %s%s = %s" % (mut, name, (": " + k.ty) if k.name == "option" else "", src))
+        vals.append([name, k, pv, mut])
+    use_closure = r.chance(50)
+    if use_closure:
+        lines.append("let carr = [1, 2]")
+        lines.append("let clo = (n: int) -> { carr.push(n); carr.len() }")
+    lines.append("let outa: channel<string> = channel()")
+    lines.append("let outb: channel<string> = channel()")
+    lines.append("let go: channel<int> = channel()")
+    nmut = [0]
+    kinds_used = [k.name for k in kinds] + (["closure"] if use_closure else [])
+
+    def mutate_some(side_vals, ind, out, side):
+        for v in side_vals:
+            name, k, pv, mut = v
+            if k.mutations() and r.chance(70):
+                tmpl, f = r.choice(k.mutations())
+                if ".pop()" in tmpl and len(pv) <= 1:
+                    continue
+                n = r.range(100, 999)
+                out.append(ind + tmpl.format(v=name, n=n))
+                f(pv, n)
+                nmut[0] += 1
+            elif not k.mutations() and side == "main" and mut == "var" and r.chance(60):
+                # reassign a scalar/string variable on the spawning side
+                src, npv = k.mk(r.range(1, 9), r.range(10, 19))
+                out.append("%s%s = %s" % (ind, name, src))
+                v[2] = npv
+                nmut[0] += 1
+
+    def report(side_vals, ind, out, chan, tag, exp):
+        for name, k, pv, mut in side_vals:
+            if chan is None:
+                out.append('%sprintln("%s %s=" .. %s)' % (ind, tag, name, k.show(name)))
+            else:
+                out.append('%s%s.write("%s %s=" .. %s)' % (ind, chan, tag, name, k.show(name)))
+            exp.append("%s %s=%s" % (tag, name, k.render(pv)))
+
+    def call_clo(carr, n, ind, out, chan, tag, exp):
+        carr.append(n)
+        if chan is None:
+            out.append('%sprintln("%s clo=" .. clo(%d))' % (ind, tag, n))
+        else:
+            out.append('%s%s.write("%s clo=" .. clo(%d))' % (ind, chan, tag, n))
+        exp.append("%s clo=%d" % (tag, len(carr)))
+
+    exp_m1, exp_a, exp_b, exp_m2 = [], [], [], []
+    # pre-spawn mutations (visible to the task: the copy is taken at spawn)
+    mutate_some(vals, "", lines, "main")
+    carr_main = [1, 2]
+    if use_closure and r.chance(50):
+        lines.append("let c0_ = clo(7)")
+        carr_main.append(7)
+    # spawn
+    tvals = [[n, k, copy.deepcopy(pv), m] for n, k, pv, m in vals]
+    carr_task = list(carr_main)
+    lines.append("task {")
+    body = []
+    mutate_some(tvals, "  ", body, "task")
+    report(tvals, "  ", body, "outa", "T1", exp_a)
+    if use_closure:
+        call_clo(carr_task, 8, "  ", body, "outa", "T1", exp_a)
+    inner = nest and r.chance(50)
+    if inner:
+        ivals = [[n, k, copy.deepcopy(pv), m] for n, k, pv, m in tvals]
+        carr_inner = list(carr_task)
+        body.append("  task {")
+        ib = []
+        mutate_some(ivals, "    ", ib, "task")
+        report(ivals, "    ", ib, "outb", "I1", exp_b)
+        if use_closure:
+            call_clo(carr_inner, 9, "    ", ib, "outb", "I1", exp_b)
+        ib.append('    outb.write("end")')
+        body += ib
+        body.append("  }")
+        # the outer task keeps mutating after spawning the inner one
+        mutate_some(tvals, "  ", body, "task")
+    body.append("  let g_ = go.read()")
+    mutate_some(tvals, "  ", body, "task")
+    report(tvals, "  ", body, "outa", "T2", exp_a)
+    if use_closure:
+        call_clo(carr_task, 8, "  ", body, "outa", "T2", exp_a)
+    body.append('  outa.write("end")')
+    lines += body
+    lines.append("}")
+    # main continues: mutate, report, release the task
+    if r.chance(50):
+        lines.append("var sp_ = 0")
+        lines.append("while sp_ < %d { sp_ += 1 }" % r.choice([3, 40, 200]))
+    mutate_some(vals, "", lines, "main")
+    report(vals, "", lines, None, "M1", exp_m1)
+    if use_closure:
+        call_clo(carr_main, 5, "", lines, None, "M1", exp_m1)
+        # main's own `carr` binding shares the array with the closure created on the main side
+        lines.append('println("M1 carr=" .. carr)')
+        exp_m1.append("M1 carr=%s" % r_arr(carr_main))
+    lines.append("go.write(1)")
+    for ch, on in (("outa", True), ("outb", inner)):
+        if on:
+            lines.append("%smsg_ = %s.read()" % ("var " if ch == "outa" else "", ch))
+            lines.append('while msg_ != "end" {')
+            lines.append("  println(msg_)")
+            lines.append("  msg_ = %s.read()" % ch)
+            lines.append("}")
+    report(vals, "", lines, None, "M2", exp_m2)
+    if use_closure:
+        call_clo(carr_main, 5, "", lines, None, "M2", exp_m2)
+    src = "\n".join(lines) + "\n"
+    expect = "\n".join(exp_m1 + exp_a + (exp_b if inner else []) + exp_m2) + "\n"
+    return {"src": src, "expect": expect, "kinds": kinds_used, "nmut": nmut[0], "inner": inner, "closure": use_closure}
